@@ -131,7 +131,9 @@ func runImpl(op Op) string {
 
 // runChild re-executes this binary for a single op, so that a fatal runtime error (stack overflow, out of memory)
 // is observed instead of killing the harness.
-func runChild(op Op) string {
+func runChild(op Op) string { return runChildFor(op, 60*time.Second) }
+
+func runChildFor(op Op, limit time.Duration) string {
 	cmd := exec.Command(os.Args[0], "single")
 	cmd.Stdin = strings.NewReader(op.Kind + "\n" + hex.EncodeToString(op.Expr) + "\n" + op.Data + "\n")
 	cmd.Env = append(os.Environ(), "GOMEMLIMIT=2GiB")
@@ -148,7 +150,7 @@ func runChild(op Op) string {
 			return "crash " + err.Error()
 		}
 		return strings.TrimSpace(outb.String())
-	case <-time.After(60 * time.Second):
+	case <-time.After(limit):
 		_ = cmd.Process.Kill()
 		return "timeout"
 	}
@@ -262,6 +264,19 @@ func runImplAll(ops []Op, n int) []string {
 		}(sh)
 	}
 	wg.Wait()
+	// a wall-clock deadline says nothing on a loaded machine: every op that timed out is run again alone, in a process
+	// of its own with a deadline ten times longer, and keeps the outcome `timeout` only if it runs out of time again
+	// (after three confirmed ones the rest is left as it is: the violation is established)
+	confirmed := 0
+	for i := range out {
+		if out[i] != "timeout" || confirmed >= 3 {
+			continue
+		}
+		out[i] = runChildFor(ops[i], 30*time.Second)
+		if out[i] == "timeout" {
+			confirmed++
+		}
+	}
 	return out
 }
 
